@@ -164,6 +164,18 @@ DecodeLay(m, b) ==
   IN [f \in FieldNames(m) |->
         LET r == RowOf(m, f)
         IN IF ActiveRow(r, s) THEN SubSeq(b, r.off + 1, r.off + r.w) ELSE Zeros(r.w)]
+\* Decode*(dst, b) fills a caller supplied struct that may hold a previously decoded
+\* value (core/client/client_csptp_ip.go decodes every datagram of its receive loop
+\* into one Message / ResponseTLV variable).  Rows on the wire are assigned; rows
+\* that are not on the wire under b's flag are cleared (the else-branch of
+\* DecodeResponseTLV) -- clears = FALSE is a decoder that leaves them alone.
+DecodeIntoGen(m, prev, b, clears) ==
+  LET s == SsdsBytes(m, b)
+  IN [f \in FieldNames(m) |->
+        LET r == RowOf(m, f)
+        IN IF ActiveRow(r, s) THEN SubSeq(b, r.off + 1, r.off + r.w)
+           ELSE IF clears THEN Zeros(r.w) ELSE prev[f]]
+DecodeLayInto(m, prev, b) == DecodeIntoGen(m, prev, b, TRUE)
 \* sign of the decoded Go value
 Neg(ty, bs) == ty = "i" /\ bs[1] >= 128
 
@@ -403,6 +415,10 @@ LayRoundTrip(m, vals) ==
       d == DecodeLay(m, e)
   IN Canonical(m, vals) => Len(e) = DeclLen(m, Ssds(m, vals)) /\ d = vals /\ EncodeLay(m, d) = e
 LayReencode(m, b) == ValidEnc(m, b) => EncodeLay(m, DecodeLay(m, b)) = b
+\*     the decoded value is a function of the bytes only: whatever the destination
+\*     held before (prev), decoding returns the value that was encoded
+DecodeOverwrites(m, prev, b) == ValidEnc(m, b) => DecodeLayInto(m, prev, b) = DecodeLay(m, b)
+RoundTripInto(m, prev, vals) == Canonical(m, vals) => DecodeLayInto(m, prev, EncodeLay(m, vals)) = vals
 \* (b) leap/version/mode accessors agree with (partition) the first byte
 LvmAgree(b) == Li(b) * 64 + Vn(b) * 8 + Mode(b) = b
 LvmSetGet(b) ==
@@ -439,6 +455,8 @@ CryptRoundTrip(c, keyid) ==
 (*         classes, or a sweep of the last byte), the other fields a base  *)
 (*         pattern                                                         *)
 (*   layb  a valid encoding written down as bytes                          *)
+(*   layp  a value decoded into a destination that holds a previously      *)
+(*         decoded value (pairs of value classes)                          *)
 (*   lvm   one first byte                                                  *)
 (*   nts   a packet shape (lengths; contents are filled deterministically) *)
 (*   sck / eck / crypt   cookie shapes                                     *)
@@ -542,11 +560,19 @@ PatternBytes(m, ssds, v) ==
       IF DataMask(m, ssds)[i] = 0 THEN 0
       ELSE IF i = FlagPos(m) THEN (v - (v % 2)) + (IF ssds THEN 1 ELSE 0) ELSE v]
 
+\* --- layp cases: (previous value class, value class) pairs -- the destination of the
+\* decoder holds a previously decoded value of class (pssds, pbase)
+LaypCases == {x \in {[k |-> "layp", m |-> m, pssds |-> ps, pbase |-> pb, ssds |-> ssds, base |-> base] :
+                        m \in Msgs, ps \in BOOLEAN, pb \in Bases, ssds \in BOOLEAN, base \in Bases} :
+                x.ssds \in Conds(x.m) /\ x.pssds \in Conds(x.m)}
+\* all fields the base pattern, flag as given
+PatternVals(m, ssds, base) == CaseVals(m, ssds, base, "none", << >>)
+
 LvmGroups == {[k |-> "grp", fam |-> "lvm", hi |-> h] : h \in 0 .. 15}
 LvmCasesOf(g) == {[k |-> "lvm", x |-> g.hi * 16 + lo] : lo \in 0 .. 15}
 
-Groups == LayGroups \cup {[k |-> "grp", fam |-> "layb"]} \cup NtsGroups \cup {[k |-> "grp", fam |-> "ntsapi"]} \cup SckGroups \cup LvmGroups
-CasesOf(g) == CASE g.fam = "lay" -> LayCasesOf(g) [] g.fam = "layb" -> LaybCases [] g.fam = "nts" -> NtsCasesOf(g)
+Groups == LayGroups \cup {[k |-> "grp", fam |-> "layb"], [k |-> "grp", fam |-> "layp"]} \cup NtsGroups \cup {[k |-> "grp", fam |-> "ntsapi"]} \cup SckGroups \cup LvmGroups
+CasesOf(g) == CASE g.fam = "lay" -> LayCasesOf(g) [] g.fam = "layb" -> LaybCases [] g.fam = "layp" -> LaypCases [] g.fam = "nts" -> NtsCasesOf(g)
                 [] g.fam = "ntsapi" -> NtsApiCases [] g.fam = "sck" -> SckCasesOf(g) [] g.fam = "lvm" -> LvmCasesOf(g)
 
 \* two fan-out steps (init -> group -> case) so that TLC's workers share the cases
@@ -569,6 +595,17 @@ PLayb == c.k = "layb" =>
    \A v \in {0, 1, 85, 170, 254, 255} :
       LET b == PatternBytes(c.m, c.ssds, v)
       IN ValidEnc(c.m, b) /\ LayReencode(c.m, b) /\ DecodeLay(c.m, EncodeLay(c.m, DecodeLay(c.m, b))) = DecodeLay(c.m, b)
+PLayp == c.k = "layp" =>
+   LET prev == PatternVals(c.m, c.pssds, c.pbase)
+       vals == PatternVals(c.m, c.ssds, c.base)
+   IN Canonical(c.m, prev) /\ Canonical(c.m, vals)
+      /\ RoundTripInto(c.m, prev, vals) /\ DecodeOverwrites(c.m, prev, EncodeLay(c.m, vals))
+\* self-test of PLayp: a decoder that does not clear what is not on the wire is rejected
+LaypHasTeeth ==
+   \E x \in LaypCases :
+      LET prev == PatternVals(x.m, x.pssds, x.pbase)
+          vals == PatternVals(x.m, x.ssds, x.base)
+      IN DecodeIntoGen(x.m, prev, EncodeLay(x.m, vals), FALSE) # vals
 PLvm == c.k = "lvm" => LvmAgree(c.x) /\ LvmSetGet(c.x)
 PNts == c.k \in {"nts", "ntsapi"} => NtsRoundTrip(NtsPacket(NtsShapeOf(c)))
 PSck == /\ c.k = "sck" => SckRoundTrip(SckOf(c))
